@@ -68,7 +68,7 @@ def run(r):
     import core, C05
     quick = r.tier == "quick"
     stdlib = set(core.tables()["stdlib_modules"])
-    bad, stats, tags = C05.explore_handlers(r, random.Random(r.seed * 11 + 4), int(os.environ.get("VERIF_H2_WORKSPACES", 24 if quick else 120)), stdlib)
+    bad, stats, tags = C05.explore_handlers(r, random.Random(r.seed * 11 + 4), int(os.environ.get("VERIF_H2_WORKSPACES", 24 if quick else 60)), stdlib)
     seen = set()
     for b in bad:
         if not (b["why"].startswith("a code lens count") or b["why"].startswith("the incoming calls") or b["why"].startswith("the references of a definition")) or b["why"] in seen:
